@@ -134,6 +134,8 @@ def decode_line(line, strip_cr=True):
     integ = v.get("integrity")
     if integ is not None and not isinstance(integ, str):
         return None
+    if integ is not None and not usable_sri(integ):
+        return None   # cannot name a content file: ignored like any other invalid record
     raw = v.get("raw_metadata")
     if raw is not None:
         if not (isinstance(raw, list) and all(isinstance(x, int) and not isinstance(x, bool) and 0 <= x < 256 for x in raw)):
@@ -167,6 +169,28 @@ def split_bucket(data):
         out.append((pos, pos + len(line), decode_line(line)))
         pos += len(line) + 1
     return out
+
+
+def usable_sri(s):
+    """An integrity string that can name a content file: one or more whitespace-separated <algo>-<digest> items of a
+    known algorithm whose digest is canonical padded base64 of at least 3 bytes (the content path is split 2/2/rest of
+    the hex digest). The digest length is NOT checked against the algorithm (the repository's own tests use
+    'sha1-deadbeef')."""
+    items = s.split()
+    if not items:
+        return False
+    for it in items:
+        algo, sep, b64 = it.partition("-")
+        b64 = b64.split("?")[0]
+        if not sep or algo not in ALGOS:
+            return False
+        try:
+            raw = base64.b64decode(b64, validate=True)
+        except Exception:
+            return False
+        if len(raw) < 3 or base64.b64encode(raw).decode() != b64:
+            return False
+    return True
 
 
 def valid_sri(s):
